@@ -118,7 +118,7 @@ def run(ctx):
             for k in range(nmut * (12 if c in boost else 1)):
                 t2, kinds = toks, []
                 for _ in range(rng.choice([1, 1, 1, 2])):
-                    r = mtgen.mutate(rng, t2, rng.choice(["insert_unknown", "dup", "swap", "corrupt", "append", "delete", "dupseq", "dupseq", "retag", "insert_sibling"]))
+                    r = mtgen.mutate(rng, t2, rng.choice(["insert_unknown", "dup", "swap", "corrupt", "append", "delete", "dupseq", "dupseq", "retag", "insert_sibling", "morelines", "morelines"]))
                     if r:
                         kinds.append(r[0]); t2 = r[1]
                 if kinds:
@@ -149,7 +149,7 @@ def run(ctx):
                 toks, trace = r
                 msgs.append((c, "\n" + mtgen.render(toks) + "\n")); meta.append(("layoutgen", "gen%d" % k, toks))
                 if k % 3 == 0:
-                    m2 = mtgen.mutate(rng, toks, rng.choice(["retag", "insert_sibling", "swap", "dup", "append", "delete"]))
+                    m2 = mtgen.mutate(rng, toks, rng.choice(["retag", "insert_sibling", "swap", "dup", "append", "delete", "morelines"]))
                     if m2:
                         msgs.append((c, "\n" + mtgen.render(m2[1]) + "\n")); meta.append(("layoutgen+" + m2[0], "gen%d" % k, m2[1]))
     except Exception as e:   # a layout the generator cannot walk is not a verdict
